@@ -165,6 +165,7 @@ class StateMachine:
         """
         for _ in range(2):
             if self.statefunc:
+                was_cleaning_up = self.cleanup_reason is not None
                 for _ in range(self.maxloops):
                     self.now = time.time()
                     if self.next_task and not self.cleanup_reason:
@@ -187,6 +188,10 @@ class StateMachine:
                         break
                     self._new_state(ret)
                 else:
+                    if self.cleanup_reason is not None and not was_cleaning_up:
+                        # the run was interrupted (stop, restart or error) within these loops:
+                        # it is not an infinite loop, the cleanup sequence which just started goes on
+                        continue
                     ret = self._cleanup(RuntimeError(
                         f'{self.statefunc.__name__}: too many states chained - probably infinite loop'))
                     if ret:
